@@ -151,3 +151,72 @@ func C05_Pool() {
 	nd.Assert(w == "", tag+"/input-modified")
 	nd.Cover(tag + "/" + src)
 }
+
+var _ = reg("C05_Wide", C05_Wide)
+
+var widePaths = []string{
+	"X[0 to last]", "X[0 to 1, 1]", "X[1 to 2].type()", "X[*]", "X[last, 0]", "X[0 to 2] ? (@ == null)", "X[*] ? (@ > 1)",
+	"X.**", "-X[*]", "X[*].double()", "X.size()", "X[0 to last] == null", "exists(X[1 to last])", "X[0 to 1][0 to last]",
+	"X ? (@[0 to last] > 1)", "X[1 to last] + 1",
+}
+
+// C05_Wide: purity on arrays of three elements with nulls anywhere among
+// them, reached as the document, as a member of it and as a variable:
+// every loop over a range or a sequence, five entry points, both modes.
+func C05_Wide() {
+	elem := nd.Spec{Kinds: nd.KNull | nd.KFloat}
+	a1 := []any{nd.JSON(elem), nd.JSON(elem), nd.JSON(elem)}
+	a2 := []any{nd.JSON(elem), nd.JSON(elem), nd.JSON(elem)}
+	var doc any = a1
+	root := "$"
+	switch nd.Choice(3) {
+	case 1:
+		doc, root = map[string]any{"a": a1}, "$.a"
+	case 2:
+		root = "$v"
+	}
+	vars := exec.Vars{"v": a2}
+	tpl := widePaths[nd.Choice(len(widePaths))]
+	src := ""
+	for i := 0; i < len(tpl); i++ {
+		if tpl[i] == 'X' {
+			src += root
+		} else {
+			src += string(tpl[i])
+		}
+	}
+	src = modePrefix() + src
+	opts := []exec.Option{exec.WithVars(vars)}
+	if nd.Choice(2) == 1 {
+		opts = append(opts, exec.WithSilent())
+	}
+	p := parse(src)
+	tag := "C05/wide"
+	nd.Freeze(doc, vars)
+	switch nd.Choice(5) {
+	case 0:
+		r, err := p.Query(bg, doc, opts...)
+		classified(err, false, tag+"/Query")
+		if err == nil {
+			for _, it := range r {
+				nd.Assert(finiteAll(it), tag+"/non-finite-number-returned")
+				nd.Assert(provenance(it, doc, vars), tag+"/container-of-unknown-origin")
+			}
+		}
+	case 1:
+		_, err := p.First(bg, doc, opts...)
+		classified(err, false, tag+"/First")
+	case 2:
+		_, err := p.Exists(bg, doc, opts...)
+		classified(err, true, tag+"/Exists")
+	case 3:
+		_, err := p.Match(bg, doc, opts...)
+		classified(err, true, tag+"/Match")
+	case 4:
+		_, err := p.ExistsOrMatch(bg, doc, opts...)
+		classified(err, true, tag+"/ExistsOrMatch")
+	}
+	w := nd.Thaw()
+	nd.Assert(w == "", tag+"/input-modified")
+	nd.Cover(tag + "/" + src)
+}
